@@ -224,7 +224,17 @@ def gen_case(ch, opts, n_paths):
     return QCase(case, paths, bare)
 
 
+# expressions the path parser rejects, most of them after it has collected a selector or part of a slice: the querent (and
+# its parser) are long-lived objects, so every other query is preceded by one of these through the same querent -- the
+# answer to the valid query that follows must not depend on it
+REJECTED = ['@[1]', '@[2:7:2]', '/001001[0:', '/001001[1]x', '@[1:2:3:4]/001001', '001001[', '@[0', '/[', '@/', '/001001[1:2',
+            '@[-1', '001001.[3]', '001001[1:x]', '@[1:']
+
+
 def run_query(msg, expr):
+    h = int(hashlib.sha1(expr.encode()).hexdigest()[:6], 16)
+    if h % 2 == 0:
+        sut.call(_Q.query, msg, REJECTED[(h // 2) % len(REJECTED)])
     o = sut.call(_Q.query, msg, expr)
     if not o.ok:
         return o, None, None
@@ -309,6 +319,10 @@ def check_paths(out, what, msg, nj, labels, flat_values, qc, n):
                 out.fail('%s: bare-ID query raised %s@%s' % (what, o.exc_type, o.frame), expr=expr, error=o.msg)
                 continue
             gf = sut.norm_json(qr.all_values(flat=True))
+            if len(gf) != n:
+                out.fail('%s: a bare-ID query does not cover every subset of the message' % what, expr=expr, n_got=len(gf), n_subsets=n,
+                         subset_indices=list(qr.subset_indices()))
+                continue
             for i in range(n):
                 w = [v for l, v in zip(labels[i], flat_values[i]) if l == ident]
                 if gf[i] != w:
